@@ -96,15 +96,15 @@ pub fn step(u: &Universe, pre: &Obs, op: Op, inc: &Incoming) -> RefStep {
         class: "",
     };
     let cur = total(&l, e);
-    let mk_in = |k: u16, vheap: usize| RE {
+    let mk_in = |k: u16, kheap: usize, vheap: usize| RE {
         id: k as u32,
-        kheap: u.key_heap(k as u32),
+        kheap,
         kserial: inc.kserial,
         vheap,
         vserial: inc.vserial,
     };
-    let do_insert = |r: &mut RefStep, l: &mut Vec<RE>, k: u16, vheap: usize| {
-        let n = mk_in(k, vheap);
+    let do_insert = |r: &mut RefStep, l: &mut Vec<RE>, k: u16, kheap: usize, vheap: usize| {
+        let n = mk_in(k, kheap, vheap);
         let s = n.size(e);
         if s > limit {
             r.ret = Ret::InsertTooLarge { k: n.ko(), v: n.vo(), entry_size: s, max_size: limit };
@@ -132,10 +132,10 @@ pub fn step(u: &Universe, pre: &Obs, op: Op, inc: &Incoming) -> RefStep {
         }
     };
     match op {
-        Op::Insert { k, h } => do_insert(&mut r, &mut l, k, u.vheaps[h as usize]),
-        Op::InsertRaw { k, vheap } => do_insert(&mut r, &mut l, k, vheap as usize),
+        Op::Insert { k, h } => do_insert(&mut r, &mut l, k, u.ins_key_heap(k as u32, h), u.vheaps[h as usize]),
+        Op::InsertRaw { k, vheap } => do_insert(&mut r, &mut l, k, u.key_heap(k as u32), vheap as usize),
         Op::TryInsert { k, h } => {
-            let n = mk_in(k, u.vheaps[h as usize]);
+            let n = mk_in(k, u.ins_key_heap(k as u32, h), u.vheaps[h as usize]);
             let s = n.size(e);
             let present = l.iter().any(|x| x.id == k as u32);
             let too_large = s > limit;
